@@ -32,7 +32,7 @@ for d in sorted(glob.glob(os.path.join(VERIF, "seeded", "C*", "m*"))):
     tot += 1
     caught_own += bool(own and own["exit"] != 0)
     rows.append("| %s/%s | %s | %s | %s | %s | %s |" % (prop, name, meta.get("implementation", "?"), desc.replace("|", "/"), how.replace("|", "/"), " ".join(others) or "-", " ".join(missed) or "-"))
-print("%d seeded changes (three per property, written by sub-agents that saw only the property text and a scratch worktree; each confirmed: existing suite passes, the agent's demonstration exits 1 on the changed build and 0 on the clean build).  %d of %d are caught by the quick tier of the check of the property they were aimed at.\n" % (tot, caught_own, tot))
+print("State after strengthening: %d seeded changes (six per property, two rounds), %d of them are caught by the quick tier of the check of the property they were aimed at (result.json beside each patch; 'also caught by' / 'not caught by' list the related checks that were run against it).\n" % (tot, caught_own))
 print("| change | impl | what was changed | own check reports (signature) | also caught by | run but not caught by |")
 print("|---|---|---|---|---|---|")
 print("\n".join(rows))
